@@ -1,4 +1,6 @@
-// Verus unit `unchecked` (C10): skip_string_unchecked on well-formed literals == the validating skipper.
+// Verus unit `unchecked` (C10, C12, C13): the non-validating skippers — skip_string_unchecked, skip_number_unsafe,
+// get_next_token, and the dispatcher skip_one_unchecked — end on well-formed input exactly where the validating
+// skipper ends and hand out the same span and escape status.
 use vstd::prelude::*;
 use vstd::string::StringSliceAdditionalSpecFns;
 verus! {
@@ -6,8 +8,13 @@ verus! {
 //@include specs/json_number.rs
 //@include specs/json_grammar.rs
 //@include units/frag_parser.vt.rs
-pub open spec fn is_esc_status(st: ParseStatus) -> bool { st is HasEscaped }
+//@include units/frag_space.vt.rs
+//@include units/frag_string.vt.rs
+//@include specs/scan.rs
+//@include specs/scalar_chars.rs
+//@include specs/scan_grammar.rs
 //@include units/frag_unchecked.vt.rs
+//@include units/frag_skip_unchecked.vt.rs
 
 } // verus!
 fn main() {}
